@@ -17,23 +17,15 @@ Theorem C16_equality_penalty_exact_native :
 Proof. exact add_eq_cy_exact. Qed.
 Print Assumptions C16_equality_penalty_exact_native.
 
-(* python fallback (object dtype, .spin/.binary views): only for pairwise distinct labels *)
-Theorem C16_equality_penalty_exact_fallback_partial :
+(* python fallback (object dtype, .spin/.binary views) as repaired in c3cb487: positions on the
+   diagonal, two terms over one variable folded per vartype; repeated labels allowed *)
+Theorem C16_equality_penalty_exact_fallback :
   forall (vt : vartype) (terms : list lterm) (lam c : Qc) (p : poly) (s : sample),
-    vt = BINARY \/ vt = SPIN -> respects (cvt vt) s -> NoDup (map fst terms) ->
+    vt = BINARY \/ vt = SPIN -> respects (cvt vt) s ->
     energy (add_eq_py vt terms lam c p) s
     = (energy p s + lam * ((lin_sum terms s + c) * (lin_sum terms s + c)))%Qc.
 Proof. exact add_eq_py_exact. Qed.
-Print Assumptions C16_equality_penalty_exact_fallback_partial.
-
-(* ... and false of the fallback as written when a label repeats: [(a,2);(b,3);(a,1)], c = -1, a=1, b=0 *)
-Theorem C16_equality_penalty_fallback_repeated_refuted :
-  exists vt terms lam c p s,
-    (vt = BINARY \/ vt = SPIN) /\ respects (cvt vt) s /\
-    energy (add_eq_py vt terms lam c p) s
-    <> (energy p s + lam * ((lin_sum terms s + c) * (lin_sum terms s + c)))%Qc.
-Proof. exact add_eq_py_repeated_refuted. Qed.
-Print Assumptions C16_equality_penalty_fallback_repeated_refuted.
+Print Assumptions C16_equality_penalty_exact_fallback.
 
 (* DQM (cydiscrete_quadratic_model.pyx), on one-hot case-level samples, duplicate cases allowed *)
 Theorem C16_equality_penalty_exact_dqm :
@@ -198,6 +190,10 @@ Proof. vm_compute; reflexivity. Qed.
 Example C16_ex_log10_15 : dqm_log10_values 15 = [[0; 1; 2; 3; 4; 5; 6; 7; 8; 9]; [0; 10]]%Z.
 Proof. vm_compute; reflexivity. Qed.
 Example C16_ex_log10_99 : length (choice_sums (dqm_log10_values 99)) = 100%nat.
+Proof. vm_compute; reflexivity. Qed.
+Example C16_ex_eq_fallback_repeated :
+  Qc_eqb (energy (add_eq_py BINARY [(0%nat, two); (1%nat, qc 3 1); (0%nat, 1%Qc)] 1%Qc (- (1))%Qc pzero)
+                 (sample_of_list [(0%nat, 1%Qc); (1%nat, 0%Qc)])) (qc 4 1) = true.
 Proof. vm_compute; reflexivity. Qed.
 Example C16_ex_eq_spin :
   Qc_eqb (energy (add_eq_cy SPIN [(0%nat, two); (1%nat, qc 3 1); (0%nat, 1%Qc)] 1%Qc (- (1))%Qc pzero)
